@@ -145,6 +145,8 @@ pub struct NodeStream {
     pub first_seen_in_table: HashMap<SocketAddrV4, u64>,
     pub has_bootstrap: bool,
     pub sent_since_snap: usize,
+    /// part of a multi-node case: the simulated network and the clock belong to the case
+    pub multi: bool,
 }
 
 impl NodeStream {
@@ -171,6 +173,7 @@ impl NodeStream {
             first_seen_in_table: HashMap::new(),
             has_bootstrap: false,
             sent_since_snap: 0,
+            multi: false,
         }
     }
 
@@ -630,7 +633,7 @@ impl NodeStream {
         self.calls.iter().filter(|c| !c.done).map(|c| c.no).collect()
     }
 
-    fn shutdown(&mut self) {
+    pub fn shutdown(&mut self) {
         self.calls.clear();
         if let Some(d) = self.dht.take() {
             drop(d);
@@ -649,9 +652,11 @@ impl Stream for NodeStream {
     fn reset(&mut self, args: &[&str], _out: &mut Out) {
         // node mode=<c|s> boot=<a,b|-> pub=<ip|-> seed=<n> t0=<ns> [caps=<a,b,c,d>]
         self.shutdown();
-        verif::reset_net();
-        let t0: u64 = kv(args, "t0").expect("t0").parse().expect("t0");
-        verif::set_now_ns(t0);
+        if !self.multi {
+            verif::reset_net();
+            let t0: u64 = kv(args, "t0").expect("t0").parse().expect("t0");
+            verif::set_now_ns(t0);
+        }
         let seed: u64 = kv(args, "seed").expect("seed").parse().expect("seed");
         let server_mode = kv(args, "mode") == Some("s");
         let boot: Vec<String> = match kv(args, "boot") {
@@ -662,7 +667,10 @@ impl Stream for NodeStream {
             Some("-") | None => None,
             Some(ip) => Some(Ipv4Addr::from(ip.parse::<u32>().expect("ip"))),
         };
-        let ip = public_ip.unwrap_or(Ipv4Addr::new(10, 0, 0, 1));
+        let ip = match kv(args, "ip") {
+            Some(ip) => Ipv4Addr::from(ip.parse::<u32>().expect("ip")),
+            None => public_ip.unwrap_or(Ipv4Addr::new(10, 0, 0, 1)),
+        };
         self.addr = SocketAddrV4::new(ip, 6881);
         let mut settings = ServerSettings::default();
         if let Some(c) = kv(args, "caps") {
